@@ -15,12 +15,13 @@ MixedStrands(locs) == Cardinality({St(locs[i]) : i \in DOMAIN locs}) > 1
 Same(a, m) == IF IsVal(m) THEN a = m ELSE (Rejected(a) \/ (IsVal(a) /\ a[2] = "<none>"))
 (* ["gene", children = <<exons, cds|EMPTY, flag>>..., ctorOutcome,
     start, end, isCoding, primaryIdx, mergedTx, mergedCds, primarySeq, childSeqs, primaryCdsSeq, childCdsSeqs,
-    primaryProtein, childProteins] *)
+    primaryProtein, childProteins, chunkStart | -1, chunkEnd | -1] *)
 VGene(ev) ==
   LET ch == ev[2] exons == [i \in DOMAIN ch |-> ch[i][1]]
       summ == [i \in DOMAIN ch |-> <<IF IsEmptyLoc(ch[i][2]) THEN 0 ELSE LenLoc(ch[i][2]), LenLoc(ch[i][1]), ch[i][3]>>]
       codingIdx == {i \in DOMAIN ch : ~IsEmptyLoc(ch[i][2])}
-      cdss == [i \in DOMAIN ch |-> ch[i][2]] IN
+      cdss == [i \in DOMAIN ch |-> ch[i][2]]
+      OnChunk == Len(ev) >= 17 /\ ev[16] >= 0 IN
   IF PrimaryIsError(summ) THEN Ok(Rejected(ev[3]), "primary:several-flags-rejected")
   ELSE IF ~IsVal(ev[3]) THEN "gene:constructs"
   ELSE LET p == SemPrimary(summ) IN FirstBad(<<
@@ -29,11 +30,15 @@ VGene(ev) ==
     Ok(ev[7] = p, "primary"),
     \* merged transcript: exactly the union of the children's blocks, combined
     IF MixedStrands(exons) /\ Rejected(ev[8]) THEN "merged:mixed-strand-rejected"
+    \* a gene built on a sequence chunk [ev[16], ev[17]) none of whose exons has a base there: there is nothing to build
+    \* the merged interval on, a documented refusal is accepted
+    ELSE IF OnChunk /\ Rejected(ev[8]) /\ UnionPos(exons) \cap (ev[16]..(ev[17] - 1)) = {} THEN "ok"
     ELSE IF ~IsVal(ev[8]) THEN "merged-transcript:returns"
     ELSE Ok(PosSet(ev[8][2]) = UnionPos(exons) /\ WellFormed(ev[8][2], -1), "merged-transcript"),
     IF codingIdx = {} THEN Ok(Rejected(ev[9]), "merged-cds:noncoding-rejects")
     ELSE IF MixedStrands([i \in 1..Cardinality(codingIdx) |-> cdss[SetToSortSeq(codingIdx, <)[i]]]) /\ Rejected(ev[9])
          THEN "merged:mixed-strand-rejected"
+    ELSE IF OnChunk /\ Rejected(ev[9]) /\ (UNION {PosSet(cdss[i]) : i \in codingIdx}) \cap (ev[16]..(ev[17] - 1)) = {} THEN "ok"
     ELSE IF ~IsVal(ev[9]) THEN "merged-cds:returns"
     ELSE Ok(PosSet(ev[9][2]) = UNION {PosSet(cdss[i]) : i \in codingIdx} /\ WellFormed(ev[9][2], -1), "merged-cds"),
     \* the primary accessors return the primary member's own values
